@@ -42,7 +42,9 @@ def synthesize(name: str, bases: tuple[type, ...], **kwargs: Any) -> type:
 
     found = __registry.get(name)
     if isinstance(found, type):
-        return found
+        if all(issubclass(found, b) for b in bases):
+            return found
+        # else: the same name declared with other bases, synthesize anew
     elif found:
         raise TypeError(f'Found {name!r} in context but its type is {type(found)!r}')
 
